@@ -95,6 +95,19 @@ def adv_entry(rng, name, cfg_name):
             'out_voa_auto': False, 'allowed_for_design': False}
 
 
+def split_pmax(rng, entries, pre, boost):
+    """give the two stage entries of a dual-stage type clearly different p_max (either order)"""
+    pe = next(e for e in entries if e['type_variety'] == pre)
+    be = next(e for e in entries if e['type_variety'] == boost)
+    if pe is be:
+        return
+    d = rng.choice([2, 3, 4, 5])
+    if rng.random() < 0.5:
+        pe['p_max'] = be['p_max'] + d
+    else:
+        pe['p_max'] = be['p_max'] - d
+
+
 def dual_entry(rng, name, pre, boost, gain_min=None):
     return {'type_variety': name, 'type_def': 'dual_stage', 'gain_min': gain_min if gain_min is not None else 25,
             'preamp_variety': pre, 'booster_variety': boost, 'allowed_for_design': True}
@@ -152,9 +165,45 @@ def nf_json(p):
     return {'kind': 'single', 'stage': stage_json(p.type_def, p.nf_model, p.nf_fit_coeff, p.gain_min, p.gain_flatmax)}
 
 
-def amp_json(p):
-    return {'fmin': int(p.f_min), 'fmax': int(p.f_max), 'gain_flatmax': f2b(p.gain_flatmax), 'p_max': f2b(p.p_max),
-            'nf': nf_json(p), 'dgt': fl(p.dgt), 'gain_ripple': fl(p.gain_ripple), 'nf_ripple': fl(p.nf_ripple)}
+def stage_of(a):
+    """NF stage of a stand-alone (non dual) loaded library entry"""
+    return stage_json(a.type_def, a.nf_model, a.nf_fit_coeff, a.gain_min, a.gain_flatmax)
+
+
+def dual_names(p):
+    return p.dual_stage_model.preamp_variety, p.dual_stage_model.booster_variety
+
+
+def nf_json_from_library(p, eq):
+    """like nf_json, but the two stages of a dual-stage amplifier are taken from the stand-alone library entries
+    the dual-stage entry names (what _update_dual_stage must copy), not from the copied preamp_*/booster_* attributes"""
+    if p.type_def == 'dual_stage' and eq is not None:
+        pre, boost = dual_names(p)
+        return {'kind': 'dual', 'pre': stage_of(eq['Edfa'][pre]), 'boost': stage_of(eq['Edfa'][boost])}
+    return nf_json(p)
+
+
+def amp_json(p, eq=None, limits=None):
+    """limits = (p_max, gain_flatmax) derived by the model (dual stage); default: the loaded values"""
+    p_max, gfm = limits if limits is not None else (p.p_max, p.gain_flatmax)
+    return {'fmin': int(p.f_min), 'fmax': int(p.f_max), 'gain_flatmax': f2b(gfm), 'p_max': f2b(p_max),
+            'nf': nf_json_from_library(p, eq), 'dgt': fl(p.dgt), 'gain_ripple': fl(p.gain_ripple),
+            'nf_ripple': fl(p.nf_ripple)}
+
+
+def raw_entries(lib):
+    """type_variety -> the JSON entry of the library document (shipped or generated), aliases included"""
+    doc = nets.eqpt_json(lib['shipped'])['Edfa'] if 'shipped' in lib else lib['edfa']
+    out = {}
+    for e in doc:
+        out[e['type_variety']] = e
+        for alias in e.get('other_name', []):
+            out[alias] = e
+    return out
+
+
+def limits_json(e):
+    return {'p_max': f2b(e['p_max']), 'gain_flatmax': f2b(e['gain_flatmax']), 'gain_min': f2b(e['gain_min'])}
 
 
 # ---------------------------------------------------------------------------------------------------------------------
